@@ -93,7 +93,7 @@ class RF24:
             raise ValueError("address length cannot be 0")
         if pipe_num < 2:
             if not pipe_num:
-                self._pipe0_read_addr = addr
+                self._pipe0_read_addr = bytearray(addr)  # a copy, not the caller's buffer
             self._reg_write_bytes(0x0A + pipe_num, addr)
         else:
             self._reg_write(0x0A + pipe_num, addr[0])
